@@ -76,6 +76,8 @@ async def _run(rng, desc):
     where = desc['reconnect_from']
 
     async def on_close_hook(rs):
+        if desc.get('on_close_delay'):
+            await asyncio.sleep(desc['on_close_delay'])       # an application whose close notification takes a while
         if state['trigger'] == 'on_close' and state['allow']:
             state['trigger'] = None
             world.log('reconnect_called', frm='on_close')
@@ -99,14 +101,14 @@ async def _run(rng, desc):
         iid[0] += 1
         return iid[0]
 
-    async def issue_pending(kinds):
+    async def issue_pending(kinds, outcome='never'):
         out = []
         for kind in kinds:
             i = next_iid()
             p = make_payload(i, DIR_REQUEST, 0, 16, 0)
             world.inter[i] = {}
             if kind == 'rr':
-                world.specs[i] = {'iid': i, 'model': 'rr', 'side': 'c', 'resp': {'size': (5, 0), 'outcome': 'never'}}
+                world.specs[i] = {'iid': i, 'model': 'rr', 'side': 'c', 'resp': {'size': (5, 0), 'outcome': outcome}}
                 fut = client.request_response(p)
                 out.append(('rr', i, fut))
             else:
@@ -136,6 +138,7 @@ async def _run(rng, desc):
         pending = await issue_pending(step['pending'])
         await asyncio.sleep(step['before'])
         cause = step['cause']
+        during = []
         if cause in ('explicit', 'stalled-writer') or where == 'task':
             trigger = 'task'
         elif cause == 'keepalive-timeout':
@@ -177,7 +180,7 @@ async def _run(rng, desc):
                 # whatever becomes of them, nothing may precede SETUP on the new transport
                 for _ in range(step['during']):
                     await asyncio.sleep(0)
-                during = await issue_pending(['rr', 'stream'][:step['during']])
+                during = await issue_pending(['rr', 'stream'][:step['during']], outcome='ok')
                 for _, _, obj in during:
                     if hasattr(obj, 'add_done_callback'):
                         obj.add_done_callback(lambda f: f.cancelled() or f.exception())
@@ -204,6 +207,7 @@ async def _run(rng, desc):
                 probe = ('exception', repr(e)[:80], i)
         await asyncio.sleep(0.5)
         rounds.append({'cause': cause, 'old': cur, 'new': conns[-1] if len(conns) > nconn else None, 'pending': pending,
+                       'during': [(k_, i_, (o_.done() if callable(getattr(o_, 'done', None)) else None)) for k_, i_, o_ in during],
                        't_cause': t_cause, 't_new': t_new, 'probe': probe,
                        'old_close_calls': cur['link'].close_calls.get('c', 0)})
     state['allow'] = False
@@ -252,6 +256,13 @@ def judge(world, rounds, conns, desc):
             else:
                 if not any(x in ('on_error', 'on_complete', 'on_next_complete') for x in obj.log) and not obj.cancelled:
                     bad('old-request-left-pending', rnd, iid=iid, model=kind, log=obj.log[-4:])
+        for kind, iid, done in r.get('during', ()):
+            # a request-response issued while reconnecting is either failed with the old connection or answered on
+            # the new one (the servers answer it at once); half a minute later it cannot still be pending
+            if kind == 'rr':
+                st['requests_issued_while_reconnecting_judged'] = st.get('requests_issued_while_reconnecting_judged', 0) + 1
+                if not done:
+                    bad('request-issued-while-reconnecting-left-pending', rnd, iid=iid)
         n = r['new']['index']
         sent = [e for e in world.events if e['kind'] == 'wire' and e.get('conn') == n and e['ep'] == 'c'
                 and e['dir'] == 'send']
@@ -299,6 +310,7 @@ def gen_case(rng):
         # a lease-honouring client; every server grants a generous lease after its own delay
         lease = [[rng.choice([0.0, 0.3, 1.0, 2.0]) for _ in range(4)], 100, 60000]
     return {'link': rng.choice(['bytes', 'messages']), 'P': 0.5, 'L': 2.0, 'lease': lease, 'frag_s': rng.choice([None, 64, 64]),
+            'on_close_delay': rng.choice([0, 0, 0.3]),
             'connect': rng.choice([('none',), ('none',), ('ticks', 1), ('ticks', 3), ('virtual', 0.01)]),
             'provider_wait': rng.choice([('none',), ('none',), ('ticks', 1), ('ticks', 4), ('virtual', 0.05)]),
             'reconnect_from': rng.choice(['on_close', 'on_keepalive_timeout', 'task']), 'rounds': rounds}
